@@ -33,24 +33,25 @@ fn pow2(e: i64) -> f64 {
     f64::from_bits(((e + 1023) as u64) << 52)
 }
 pub trait GEl: Elem + PartialOrd {
-    fn mk(re: i64, im: i64, e: i64) -> Self;
+    /// (re + i im) / d * 2^e
+    fn mk(re: i64, im: i64, e: i64, d: i64) -> Self;
     fn c(&self) -> (f64, f64);
     fn hex(&self) -> String;
     /// the exact value (exact element type only)
     fn as_rat(&self) -> Rat { Rat::int(0) }
 }
 impl GEl for f64 {
-    fn mk(re: i64, _im: i64, e: i64) -> f64 { re as f64 * pow2(e) }
+    fn mk(re: i64, _im: i64, e: i64, d: i64) -> f64 { (if d == 1 { re as f64 } else { re as f64 / d as f64 }) * pow2(e) }
     fn c(&self) -> (f64, f64) { (*self, 0.0) }
     fn hex(&self) -> String { bits(*self) }
 }
 impl GEl for Cmplx {
-    fn mk(re: i64, im: i64, e: i64) -> Cmplx { Cmplx::new(re as f64 * pow2(e), im as f64 * pow2(e)) }
+    fn mk(re: i64, im: i64, e: i64, d: i64) -> Cmplx { if d == 1 { Cmplx::new(re as f64 * pow2(e), im as f64 * pow2(e)) } else { Cmplx::new(re as f64 / d as f64 * pow2(e), im as f64 / d as f64 * pow2(e)) } }
     fn c(&self) -> (f64, f64) { (self.real, self.imag) }
     fn hex(&self) -> String { format!("{}{}", bits(self.real), bits(self.imag)) }
 }
 impl GEl for Rat {
-    fn mk(re: i64, _im: i64, e: i64) -> Rat { if e != 0 { eprintln!("TOOL-ERROR exponent on an exact case"); std::process::exit(2) } Rat::int(re) }
+    fn mk(re: i64, _im: i64, e: i64, d: i64) -> Rat { if e != 0 || d != 1 { eprintln!("TOOL-ERROR exponent on an exact case"); std::process::exit(2) } Rat::int(re) }
     fn c(&self) -> (f64, f64) { (self.to_f64(), 0.0) }
     fn hex(&self) -> String { format!("{}/{}", self.n, self.d) }
     fn as_rat(&self) -> Rat { *self }
@@ -63,14 +64,15 @@ fn build_mat<T: GEl>(case: &Value) -> Matrix<T> {
     let n = getu(case, "n");
     let re = ivec(&case["a"]["d"]); let im = opt_ivec(case, "ai", n * n); let ex = opt_ivec(case, "ae", n * n);
     if re.len() != n * n || im.len() != n * n || ex.len() != n * n { eprintln!("TOOL-ERROR malformed gauss case {}", case); std::process::exit(2) }
+    let div = case.get("adiv").and_then(|v| v.as_i64()).unwrap_or(1);
     let mut m = Matrix::<T>::new(n, n, T::from_ri(0, 0));
-    for i in 0..n { for j in 0..n { let k = i * n + j; m[(i, j)] = T::mk(re[k], im[k], ex[k]); } }
+    for i in 0..n { for j in 0..n { let k = i * n + j; m[(i, j)] = T::mk(re[k], im[k], ex[k], div); } }
     m
 }
 fn build_rhs<T: GEl>(case: &Value) -> Vector<T> {
     let n = getu(case, "n");
     let re = ivec(&case["b"]); let im = opt_ivec(case, "bi", n); let ex = opt_ivec(case, "be", n);
-    Vector::create((0..n).map(|k| T::mk(re[k], im[k], ex[k])).collect())
+    Vector::create((0..n).map(|k| T::mk(re[k], im[k], ex[k], 1)).collect())
 }
 
 // ------------------------------------------------------------------ measurements (double-double; trusted)
@@ -196,38 +198,45 @@ fn nonsingular_mod_p(re: &[i64], im: &[i64], n: usize) -> bool {
 }
 
 // ------------------------------------------------------------------ exec
-fn ratmat_json(m: &Matrix<Rat>) -> Value { jratmat(m) }
 fn hexes<T: GEl>(m: &Matrix<T>) -> Value { let mut v = Vec::new(); for i in 0..m.rows() { for j in 0..m.cols() { v.push(m[(i, j)].hex()); } } Value::from(v) }
 fn is_rat<T: GEl>() -> bool { T::NAME == "rat" }
 /// FNV-1a hash of the operands (identifies the input in events that do not carry the matrix itself)
 fn operand_hash(case: &Value) -> String {
     let mut h: u64 = 0xcbf29ce484222325;
-    for k in ["a", "ai", "ae", "b", "bi", "be"] { if let Some(v) = case.get(k) { for byte in format!("{}={};", k, v).bytes() { h ^= byte as u64; h = h.wrapping_mul(0x100000001b3); } } }
+    for k in ["a", "ai", "ae", "adiv", "b", "bi", "be", "steps"] { if let Some(v) = case.get(k) { for byte in format!("{}={};", k, v).bytes() { h ^= byte as u64; h = h.wrapping_mul(0x100000001b3); } } }
     format!("{:016x}", h)
 }
-fn base_event<T: GEl>(case: &Value, op: &str) -> Value {
-    json!({"op": op, "ty": T::NAME, "cid": geti(case, "cid"), "n": geti(case, "n"), "fam": gets(case, "fam"), "h": operand_hash(case)})
+/// the fields every event of a case carries
+fn meta_of(case: &Value) -> Value { json!({"cid": geti(case, "cid"), "n": geti(case, "n"), "fam": gets(case, "fam"), "h": operand_hash(case)}) }
+fn base_event<T: GEl>(meta: &Value, op: &str) -> Value { let mut e = meta.clone(); e["op"] = json!(op); e["ty"] = json!(T::NAME); e }
+/// a Rat element as [n, d] (saturating to [BAD, 1]); only called for the exact element type
+fn rat_of<T: GEl>(v: &T) -> Value { jrat(v.as_rat()) }
+/// the CURRENT entries as integers: Some((re, im)) iff every entry is an exact integer below 2^30
+fn int_proj<T: GEl>(m: &Matrix<T>) -> Option<(Vec<i64>, Vec<i64>)> {
+    let (mut re, mut im) = (Vec::new(), Vec::new());
+    for i in 0..m.rows() { for j in 0..m.cols() { let (a, b) = m[(i, j)].to_ri(); if a == BAD || b == BAD { return None; } re.push(a); im.push(b); } }
+    Some((re, im))
 }
 
-fn run_solve<T: GEl>(case: &Value, out: &mut Out) {
-    let n = getu(case, "n");
-    let a0 = build_mat::<T>(case); let b = build_rhs::<T>(case);
-    let ac = mat_cdd(&a0); let bc = vec_cdd(&b);
+/// solve_basic and solve_lu, each on its own clone of `a0`, and their agreement
+fn q_solve<T: GEl>(meta: &Value, a0: &Matrix<T>, b: &Vector<T>, want: Option<&Value>, out: &mut Out) {
+    let n = a0.rows();
+    let ac = mat_cdd(a0); let bc = vec_cdd(b);
     let na = mat_norm_inf(&ac, n); let nb = vec_norm_inf(&bc);
     let mut results: Vec<Option<Vector<T>>> = Vec::new();
     for solver in ["basic", "lu"] {
         let mut m = a0.clone();
-        let r = guarded(|| if solver == "basic" { m.solve_basic(&b) } else { m.solve_lu(&b) });
-        let mut e = base_event::<T>(case, "solve");
+        let r = guarded(|| if solver == "basic" { m.solve_basic(b) } else { m.solve_lu(b) });
+        let mut e = base_event::<T>(meta, "solve");
         e["solver"] = json!(solver);
         match &r {
             Err(_) => { e["panic"] = json!(true); }
             Ok(x) => {
                 e["panic"] = json!(false); e["len"] = json!(x.size());
                 if is_rat::<T>() {
-                    e["a"] = case["a"].clone(); e["b"] = case["b"].clone();
+                    e["a"] = jmat(a0, Part::Re); e["b"] = jvec(b, Part::Re);
                     e["x"] = Value::from(x.vec.iter().map(rat_of).collect::<Vec<Value>>());
-                    if let Some(w) = case.get("want") { e["want"] = w.clone(); }
+                    if let Some(w) = want { e["want"] = w.clone(); }
                 } else if x.size() == n {
                     let xc = vec_cdd(x);
                     let res = residual(&ac, &xc, &bc, n);
@@ -240,7 +249,7 @@ fn run_solve<T: GEl>(case: &Value, out: &mut Out) {
         results.push(r.ok());
     }
     if let (Some(x1), Some(x2)) = (&results[0], &results[1]) {
-        let mut e = base_event::<T>(case, "agree"); e["panic"] = json!(false);
+        let mut e = base_event::<T>(meta, "agree"); e["panic"] = json!(false);
         if is_rat::<T>() {
             e["x1"] = Value::from(x1.vec.iter().map(rat_of).collect::<Vec<Value>>());
             e["x2"] = Value::from(x2.vec.iter().map(rat_of).collect::<Vec<Value>>());
@@ -255,73 +264,155 @@ fn run_solve<T: GEl>(case: &Value, out: &mut Out) {
         out.ev(e);
     }
 }
-/// a Rat element as [n, d] (saturating to [BAD, 1]); only called for the exact element type
-fn rat_of<T: GEl>(v: &T) -> Value { jrat(v.as_rat()) }
 
-fn run_det<T: GEl>(case: &Value, out: &mut Out) {
-    let n = getu(case, "n");
-    let a0 = build_mat::<T>(case);
-    let ac = mat_cdd(&a0);
-    let re = ivec(&case["a"]["d"]);
-    let plain_int = opt_ivec(case, "ai", n * n).iter().all(|x| *x == 0) && opt_ivec(case, "ae", n * n).iter().all(|x| *x == 0);
-    // ---- determinant
-    {
-        let pre = hexes(&a0);
-        let r = guarded(|| a0.determinant());
-        let mut e = base_event::<T>(case, "det");
-        match r {
-            Err(_) => { e["panic"] = json!(true); }
-            Ok(d) => {
-                e["panic"] = json!(false);
-                if is_rat::<T>() {
-                    e["a"] = case["a"].clone(); e["det"] = rat_of(&d); e["post"] = jmat(&a0, Part::Re);
-                    if let Some(w) = case.get("wdet") { e["wdet"] = w.clone(); }
-                } else {
-                    let exact = if plain_int { bareiss_fits(&re, n) } else { None };
-                    let reference = match exact { Some(x) => CDD::from(x as f64, 0.0), None => det_ref(&ac, n) };
-                    let err = cd(&d).sub(reference).abs();
-                    let unit = (n as f64) * EPS * mat_norm_frob(&ac).powi(n as i32);
-                    e["units"] = json!(units(err, unit)); e["units_m"] = json!(units(err, unit / 1000.0));
-                    if let Some(x) = exact { e["a"] = case["a"].clone(); e["dex"] = json!(x); }
-                    e["pre"] = pre; e["post"] = hexes(&a0);
-                }
+/// determinant() of the object, judged against its current entries
+fn q_det<T: GEl>(meta: &Value, a0: &Matrix<T>, wdet: Option<&Value>, out: &mut Out) {
+    let n = a0.rows();
+    let pre = hexes(a0); let pre_int = jmat(a0, Part::Re);
+    let r = guarded(|| a0.determinant());
+    let mut e = base_event::<T>(meta, "det");
+    match r {
+        Err(_) => { e["panic"] = json!(true); }
+        Ok(d) => {
+            e["panic"] = json!(false);
+            if is_rat::<T>() {
+                e["a"] = pre_int; e["det"] = rat_of(&d); e["post"] = jmat(a0, Part::Re);
+                if let Some(w) = wdet { e["wdet"] = w.clone(); }
+            } else {
+                let ac = mat_cdd(a0);
+                // integer input: the exact determinant (recomputed by TLC from the logged matrix); otherwise double-double elimination
+                let exact = match int_proj(a0) { Some((re, im)) if im.iter().all(|x| *x == 0) => bareiss_fits(&re, n).map(|x| (x, re)), _ => None };
+                let reference = match &exact { Some((x, _)) => CDD::from(*x as f64, 0.0), None => det_ref(&ac, n) };
+                let err = cd(&d).sub(reference).abs();
+                let unit = (n as f64) * EPS * mat_norm_frob(&ac).powi(n as i32);
+                e["units"] = json!(units(err, unit)); e["units_m"] = json!(units(err, unit / 1000.0));
+                if let Some((x, re)) = exact { e["a"] = json!({"r": n, "c": n, "d": re}); e["dex"] = json!(x); }
+                e["pre"] = pre; e["post"] = hexes(a0);
             }
         }
-        out.ev(e);
     }
-    // ---- inverse (nonsingular input only)
-    if case.get("inv").and_then(|v| v.as_bool()).unwrap_or(false) {
-        let pre = hexes(&a0);
-        let r = guarded(|| a0.inverse());
-        let mut e = base_event::<T>(case, "inverse");
-        match r {
-            Err(_) => { e["panic"] = json!(true); }
-            Ok(x) => {
-                e["panic"] = json!(false);
-                if is_rat::<T>() {
-                    e["a"] = case["a"].clone(); e["post"] = jmat(&a0, Part::Re);
-                    let mut d = Vec::new(); for i in 0..x.rows() { for j in 0..x.cols() { d.push(rat_of(&x[(i, j)])); } }
-                    e["inv"] = json!({"r": x.rows(), "c": x.cols(), "d": d});
-                } else {
-                    e["rows"] = json!(x.rows()); e["cols"] = json!(x.cols());
-                    if x.rows() == n && x.cols() == n {
-                        let xc = mat_cdd(&x);
-                        let (na, n1, nx) = (mat_norm_inf(&ac, n), mat_norm_1(&ac, n), mat_norm_max(&xc));
-                        let (rerr, runit) = (mat_norm_max(&matmul_minus_id(&ac, &xc, n)), EPS * na * nx);
+    out.ev(e);
+}
+
+/// inverse() of the object (nonsingular input only); `lres`: also judge the left residual (needs moderate conditioning)
+fn q_inverse<T: GEl>(meta: &Value, a0: &Matrix<T>, lres: bool, out: &mut Out) {
+    let n = a0.rows();
+    let pre = hexes(a0); let pre_int = jmat(a0, Part::Re);
+    let r = guarded(|| a0.inverse());
+    let mut e = base_event::<T>(meta, "inverse");
+    match r {
+        Err(_) => { e["panic"] = json!(true); }
+        Ok(x) => {
+            e["panic"] = json!(false);
+            if is_rat::<T>() {
+                e["a"] = pre_int; e["post"] = jmat(a0, Part::Re);
+                let mut d = Vec::new(); for i in 0..x.rows() { for j in 0..x.cols() { d.push(rat_of(&x[(i, j)])); } }
+                e["inv"] = json!({"r": x.rows(), "c": x.cols(), "d": d});
+            } else {
+                e["rows"] = json!(x.rows()); e["cols"] = json!(x.cols());
+                if x.rows() == n && x.cols() == n {
+                    let ac = mat_cdd(a0); let xc = mat_cdd(&x);
+                    let (na, n1, nx) = (mat_norm_inf(&ac, n), mat_norm_1(&ac, n), mat_norm_max(&xc));
+                    let (rerr, runit) = (mat_norm_max(&matmul_minus_id(&ac, &xc, n)), EPS * na * nx);
+                    e["runits"] = json!(units(rerr, runit)); e["runits_m"] = json!(units(rerr, runit / 1000.0));
+                    if lres {
                         let (lerr, lunit) = (mat_norm_max(&matmul_minus_id(&xc, &ac, n)), EPS * (n as f64) * na * n1 * nx * nx);
-                        e["runits"] = json!(units(rerr, runit)); e["runits_m"] = json!(units(rerr, runit / 1000.0));
                         e["lunits"] = json!(units(lerr, lunit)); e["lunits_m"] = json!(units(lerr, lunit / 1000.0));
-                    } else { e["runits"] = json!(SAT); e["lunits"] = json!(SAT); }
-                    e["pre"] = pre; e["post"] = hexes(&a0);
-                }
+                    }
+                } else { e["runits"] = json!(SAT); if lres { e["lunits"] = json!(SAT); } }
+                e["pre"] = pre; e["post"] = hexes(a0);
             }
         }
-        out.ev(e);
+    }
+    out.ev(e);
+}
+
+fn run_solve<T: GEl>(case: &Value, out: &mut Out) {
+    let a0 = build_mat::<T>(case); let b = build_rhs::<T>(case);
+    q_solve(&meta_of(case), &a0, &b, case.get("want"), out);
+}
+fn flag(case: &Value, k: &str, default: bool) -> bool { case.get(k).and_then(|v| v.as_bool()).unwrap_or(default) }
+fn run_det<T: GEl>(case: &Value, out: &mut Out) {
+    let a0 = build_mat::<T>(case); let meta = meta_of(case);
+    // nodet: the determinant itself is outside the floating-point range (extremely scaled input); only inverse() is called
+    if !flag(case, "nodet", false) { q_det(&meta, &a0, case.get("wdet"), out); }
+    if flag(case, "inv", false) { q_inverse(&meta, &a0, flag(case, "lres", true), out); }
+}
+
+// ---- sequences on ONE Matrix object: queries interleaved with mutators; every query is judged against the
+//      entries the object holds at that moment (a stale memoised factorisation / determinant / inverse shows up here)
+fn sval<T: GEl>(st: &Value, k: &str) -> T { let ki = format!("{}i", k); T::mk(geti(st, k), st.get(&ki).and_then(|v| v.as_i64()).unwrap_or(0), 0, 1) }
+fn svec<T: GEl>(st: &Value, k: &str) -> Vector<T> {
+    let re = ivec(&st[k]); let ki = format!("{}i", k); let im = st.get(&ki).map(ivec).unwrap_or_else(|| vec![0; re.len()]);
+    Vector::create((0..re.len()).map(|q| T::mk(re[q], im[q], 0, 1)).collect())
+}
+fn smat<T: GEl>(st: &Value, k: &str, n: usize) -> Matrix<T> {
+    let re = ivec(&st[k]); let ki = format!("{}i", k); let im = st.get(&ki).map(ivec).unwrap_or_else(|| vec![0; re.len()]);
+    let mut m = Matrix::<T>::new(n, n, T::from_ri(0, 0)); for i in 0..n { for j in 0..n { m[(i, j)] = T::mk(re[i * n + j], im[i * n + j], 0, 1); } } m
+}
+/// apply one mutator of the public API to the object
+fn mutate<T: GEl>(m: &mut Matrix<T>, st: &Value) {
+    let n = m.rows(); let own = gets(st, "form") == "own";
+    match gets(st, "op") {
+        "set" => m[(getu(st, "i"), getu(st, "j"))] = sval::<T>(st, "x"),
+        "set_row" => m.set_row(getu(st, "i"), svec::<T>(st, "v")),
+        "set_col" => m.set_col(getu(st, "j"), svec::<T>(st, "v")),
+        "swap_rows" => m.swap_rows(getu(st, "i"), getu(st, "i2")),
+        "swap_elem" => m.swap_elem(getu(st, "i"), getu(st, "j"), getu(st, "i2"), getu(st, "j2")),
+        "fill" => m.fill(sval::<T>(st, "x")),
+        "fill_diag" => m.fill_diag(sval::<T>(st, "x")),
+        "fill_band" => m.fill_band(geti(st, "off") as isize, sval::<T>(st, "x")),
+        "fill_tridiag" => m.fill_tridiag(sval::<T>(st, "lo"), sval::<T>(st, "di"), sval::<T>(st, "up")),
+        "fill_row" => m.fill_row(getu(st, "i"), sval::<T>(st, "x")),
+        "fill_col" => m.fill_col(getu(st, "j"), sval::<T>(st, "x")),
+        "add_assign" => { let b = smat::<T>(st, "b", n); if own { *m += b } else { *m += &b } }
+        "sub_assign" => { let b = smat::<T>(st, "b", n); if own { *m -= b } else { *m -= &b } }
+        "mul_assign" => *m *= sval::<T>(st, "s"),
+        "div_assign" => *m /= sval::<T>(st, "s"),
+        "add_scalar_assign" => *m += sval::<T>(st, "s"),
+        "sub_scalar_assign" => *m -= sval::<T>(st, "s"),
+        "transpose_in_place" => m.transpose_in_place(),
+        "resize" => m.resize(n, n),
+        o => { eprintln!("TOOL-ERROR unknown gauss mutator {}", o); std::process::exit(2) }
+    }
+}
+/// kappa_inf <= 1e8 by an own double-double Gauss-Jordan inverse (domain filter for the left inverse residual)
+fn kappa_ok(a: &[CDD], n: usize) -> bool {
+    let mut m = a.to_vec(); let mut x: Vec<CDD> = (0..n * n).map(|k| if k / n == k % n { CDD::from(1.0, 0.0) } else { CDD::ZERO }).collect();
+    for k in 0..n {
+        let mut p = k; let mut best = m[k * n + k].abs();
+        for i in k + 1..n { let v = m[i * n + k].abs(); if v > best { best = v; p = i; } }
+        if !(best > 0.0) { return false; }
+        if p != k { for j in 0..n { m.swap(k * n + j, p * n + j); x.swap(k * n + j, p * n + j); } }
+        let piv = m[k * n + k];
+        for j in 0..n { m[k * n + j] = cdiv(m[k * n + j], piv); x[k * n + j] = cdiv(x[k * n + j], piv); }
+        for i in 0..n { if i != k { let f = m[i * n + k]; for j in 0..n { let t = f.mul(m[k * n + j]); m[i * n + j] = m[i * n + j].sub(t); let t = f.mul(x[k * n + j]); x[i * n + j] = x[i * n + j].sub(t); } } }
+    }
+    let kappa = mat_norm_inf(a, n) * mat_norm_inf(&x, n);
+    kappa.is_finite() && kappa <= 1e8
+}
+fn run_seq<T: GEl>(case: &Value, out: &mut Out) {
+    let n = getu(case, "n");
+    let mut m = build_mat::<T>(case);
+    let base = meta_of(case);
+    for (k, st) in case["steps"].as_array().unwrap().iter().enumerate() {
+        let mut meta = base.clone(); meta["k"] = json!(k);
+        // the domain of each query is decided on the object's CURRENT entries (exact integer arithmetic, trusted)
+        let cur = if m.rows() == n && m.cols() == n { int_proj(&m) } else { None };
+        let nonsing = cur.as_ref().map(|(re, im)| nonsingular_mod_p(re, im, n)).unwrap_or(false);
+        match gets(st, "op") {
+            "det" => { if let Some((re, _)) = &cur { if !is_rat::<T>() || bareiss_fits(re, n).is_some() { q_det(&meta, &m, None, out); } } }
+            "inverse" => { if let Some((re, _)) = &cur { if nonsing && (if is_rat::<T>() { inverse_fits(re, n) } else { kappa_ok(&mat_cdd(&m), n) }) { q_inverse(&meta, &m, true, out); } } }
+            "solve" => { if let Some((re, _)) = &cur { let b = svec::<T>(st, "b"); if nonsing && (!is_rat::<T>() || solve_fits(re, n, &ivec(&st["b"]))) { q_solve(&meta, &m, &b, None, out); } } }
+            // calls whose results are discarded: they give a memoising implementation the opportunity to cache
+            "prime" => { let _ = guarded(|| m.determinant()); if nonsing { let _ = guarded(|| m.inverse()); } }
+            _ => { let _ = guarded(|| mutate(&mut m, st)); }
+        }
     }
 }
 
 fn run<T: GEl>(case: &Value, out: &mut Out) {
-    match gets(case, "kind") { "solve" => run_solve::<T>(case, out), "det" => run_det::<T>(case, out),
+    match gets(case, "kind") { "solve" => run_solve::<T>(case, out), "det" => run_det::<T>(case, out), "seq" => run_seq::<T>(case, out),
         k => { eprintln!("TOOL-ERROR unknown gauss case kind {}", k); std::process::exit(2) } }
 }
 pub fn exec(case: &Value, out: &mut Out) {
@@ -573,29 +664,292 @@ fn gen_det(tier: &str, seed: u64, sink: &mut Sink) {
         if n >= 2 { for s in 0..n - 1 { emit(&mut rng, sink, "zeropiv", false, &mut |r| { let r0 = r.gen_range(s + 1..n); fam_zeropiv(r, n, &small, s, r0, 0, true) }); } }
     } }
 }
-/// kappa_inf(A) <= 1e8, estimated with an own double-double Gauss-Jordan inverse (generator side only)
 fn cond_ok(g: &Gm, _cx: bool) -> bool {
     let n = g.n; let ex = final_exps(g);
     let a: Vec<CDD> = (0..n * n).map(|k| CDD::from(g.re[k] as f64 * pow2(ex[k]), g.im[k] as f64 * pow2(ex[k]))).collect();
-    let mut m = a.clone(); let mut x: Vec<CDD> = (0..n * n).map(|k| if k / n == k % n { CDD::from(1.0, 0.0) } else { CDD::ZERO }).collect();
-    for k in 0..n {
-        let mut p = k; let mut best = m[k * n + k].abs();
-        for i in k + 1..n { let v = m[i * n + k].abs(); if v > best { best = v; p = i; } }
-        if !(best > 0.0) { return false; }
-        if p != k { for j in 0..n { m.swap(k * n + j, p * n + j); x.swap(k * n + j, p * n + j); } }
-        let piv = m[k * n + k];
-        for j in 0..n { m[k * n + j] = cdiv(m[k * n + j], piv); x[k * n + j] = cdiv(x[k * n + j], piv); }
-        for i in 0..n { if i != k { let f = m[i * n + k]; for j in 0..n { let t = f.mul(m[k * n + j]); m[i * n + j] = m[i * n + j].sub(t); let t = f.mul(x[k * n + j]); x[i * n + j] = x[i * n + j].sub(t); } } }
-    }
-    let kappa = mat_norm_inf(&a, n) * mat_norm_inf(&x, n);
-    kappa.is_finite() && kappa <= 1e8
+    kappa_ok(&a, n)
 }
 
 /// tier: "quick" | "thorough", optionally followed by ":c01" or ":c02" to generate one property's cases only
 pub fn gen(tier: &str, seed: u64, out: &mut Out) {
     let mut it = tier.split(':'); let t = it.next().unwrap_or("quick"); let which = it.next().unwrap_or("");
     let mut sink = Sink { out, cid: 0, counts: Default::default() };
-    if which != "c02" { gen_solve(t, seed, &mut sink); }
-    if which != "c01" { gen_det(t, seed, &mut sink); }
+    if which != "c02" { gen_solve(t, seed, &mut sink); gen_solve_hard(t, seed, &mut sink); gen_seq(t, seed, "c01", &mut sink); }
+    if which != "c01" { gen_det(t, seed, &mut sink); gen_det_hard(t, seed, &mut sink); gen_seq(t, seed, "c02", &mut sink); }
     if std::env::var("GAUSS_COUNTS").is_ok() { for (k, v) in &sink.counts { eprintln!("{} {}", k, v); } }
+}
+
+// ------------------------------------------------------------------ hardening families (special exact values, extreme magnitudes, sequences)
+fn b_random(rng: &mut StdRng, n: usize, cx: bool, bmax: i64) -> Vec<(i64, i64)> { (0..n).map(|_| (rng.gen_range(-bmax..=bmax), if cx { rng.gen_range(-bmax..=bmax) } else { 0 })).collect() }
+/// one solve case; false if the matrix is not provably nonsingular or (exact type) too large for TLC's integers
+fn push_solve(sink: &mut Sink, ty: &str, fam: &str, g: &Gm, b: &[(i64, i64)], bexp: &[i64], adiv: i64) -> bool {
+    let n = g.n;
+    if !g.nonsingular() { return false; }
+    let bre: Vec<i64> = b.iter().map(|v| v.0).collect(); let bim: Vec<i64> = b.iter().map(|v| v.1).collect();
+    if ty == "rat" && (adiv != 1 || g.ex.iter().any(|e| *e != 0) || !solve_fits(&g.re, n, &bre)) { return false; }
+    let mut c = case_json(ty, "solve", fam, g);
+    c["b"] = json!(bre); if ty == "cx" { c["bi"] = json!(bim); }
+    if ty != "rat" && bexp.iter().any(|e| *e != 0) { c["be"] = json!(bexp); }
+    if adiv != 1 { c["adiv"] = json!(adiv); }
+    sink.push(c); true
+}
+/// one determinant / inverse case.  det: call determinant(); inverse() is called iff the matrix is provably nonsingular;
+/// graded: the conditioning is only due to scaling (left residual not judged)
+fn push_det(sink: &mut Sink, ty: &str, fam: &str, g: &Gm, adiv: i64, det: bool, graded: bool) -> bool {
+    let n = g.n; let rat = ty == "rat";
+    if rat && (adiv != 1 || g.ex.iter().any(|e| *e != 0) || bareiss_fits(&g.re, n).is_none()) { return false; }
+    let nonsing = g.nonsingular();
+    let inv = nonsing && (!rat || inverse_fits(&g.re, n));
+    if !det && !inv { return false; }
+    let mut c = case_json(ty, "det", fam, g);
+    c["inv"] = json!(inv); c["sing"] = json!(!nonsing);
+    if !det { c["nodet"] = json!(true); }
+    if inv && !rat { c["lres"] = json!(!graded && adiv == 1 && cond_ok(g, ty == "cx")); }
+    if adiv != 1 { c["adiv"] = json!(adiv); }
+    sink.push(c); true
+}
+/// rows U_1, ..., U_{n-1}, U_0 of an upper triangular U: every elimination step must exchange with the LAST row
+fn fam_cyc_upper(rng: &mut StdRng, n: usize, d: &Draw) -> Gm {
+    let u = fam_triangular(rng, n, d, true, None);
+    let p: Vec<usize> = (0..n).map(|i| (i + 1) % n).collect();
+    u.permute_rows(&p)
+}
+/// units of the element type: +-1 (and +-i for complex); `fifth`: also (+-3 +-4i), (+-4 +-3i) meaning x/5 (modulus exactly 1)
+fn unit_value(rng: &mut StdRng, cx: bool, fifth: bool) -> (i64, i64) {
+    let s = |rng: &mut StdRng| if rng.gen_bool(0.5) { 1 } else { -1 };
+    let k = if fifth { 5 } else { 1 };
+    if !cx { return (k * s(rng), 0); }
+    match rng.gen_range(0..if fifth { 4 } else { 2 }) { 0 => (k * s(rng), 0), 1 => (0, k * s(rng)), 2 => (3 * s(rng), 4 * s(rng)), _ => (4 * s(rng), 3 * s(rng)) }
+}
+fn gmul(a: (i64, i64), b: (i64, i64)) -> (i64, i64) { (a.0 * b.0 - a.1 * b.1, a.0 * b.1 + a.1 * b.0) }
+/// A = P L U with L unit lower, entries of L in {0, +-1}, U upper with unit-modulus diagonal: EVERY pivot of any
+/// maximal-magnitude elimination has modulus exactly 1, with non-zero entries below it.  Returns (mantissas, divisor).
+fn fam_unitpiv(rng: &mut StdRng, n: usize, d: &Draw, fifth: bool) -> (Gm, i64) {
+    let k = if fifth { 5 } else { 1 };
+    let mut l = Gm::zeros(n); let mut u = Gm::zeros(n);
+    for i in 0..n { for j in 0..n {
+        if i == j { l.set(i, j, (1, 0)); u.set(i, j, unit_value(rng, d.cx, fifth)); }
+        else if i > j { l.set(i, j, ([-1, 1, 1, 0][rng.gen_range(0..4)], 0)); }
+        else { let v = d.any(rng); u.set(i, j, (v.0 * k, v.1 * k)); }
+    } }
+    let mut g = Gm::zeros(n);
+    for i in 0..n { for j in 0..n { let mut acc = (0, 0); for q in 0..n { let t = gmul(l.get(i, q), u.get(q, j)); acc = (acc.0 + t.0, acc.1 + t.1); } g.set(i, j, acc); } }
+    let p = rand_perm(rng, n);
+    (g.permute_rows(&p), k)
+}
+fn fam_identity(n: usize) -> Gm { let mut g = Gm::zeros(n); for i in 0..n { g.set(i, i, (1, 0)); } g }
+fn fam_unit_tri(rng: &mut StdRng, n: usize, d: &Draw, upper: bool) -> Gm { let mut g = fam_triangular(rng, n, d, upper, None); for i in 0..n { g.set(i, i, (1, 0)); } g }
+/// elementary matrices: identity plus one off-diagonal entry / one scaled row / two rows exchanged
+fn fam_elementary(rng: &mut StdRng, n: usize, d: &Draw, kind: usize) -> Gm {
+    let mut g = fam_identity(n);
+    if n == 1 { if kind == 1 { g.set(0, 0, d.nz(rng)); } return g; }
+    let p = rand_perm(rng, n);
+    match kind { 0 => g.set(p[0], p[1], d.nz(rng)), 1 => g.set(p[0], p[0], d.nz(rng)), _ => { g.set(p[0], p[0], (0, 0)); g.set(p[1], p[1], (0, 0)); g.set(p[0], p[1], (1, 0)); g.set(p[1], p[0], (1, 0)); } }
+    g
+}
+fn fam_diagonal(rng: &mut StdRng, n: usize, d: &Draw, zeros: usize) -> Gm {
+    let mut g = Gm::zeros(n); let p = rand_perm(rng, n);
+    for i in 0..n { g.set(i, i, d.nz(rng)); } for q in 0..zeros.min(n) { g.set(p[q], p[q], (0, 0)); } g
+}
+/// column s is zero on and below the diagonal AFTER s elimination steps (first s columns upper triangular): the
+/// factorisation meets an all-zero pivot column exactly at stage s
+fn fam_zerostage(rng: &mut StdRng, n: usize, d: &Draw, s: usize, shuffle: bool) -> Gm {
+    let mut g = Gm::zeros(n);
+    for i in 0..n { for j in 0..n {
+        if j < s { if i < j { g.set(i, j, d.any(rng)); } else if i == j { g.set(i, j, d.nz(rng)); } }
+        else if j == s { if i < s { g.set(i, j, d.nz(rng)); } }
+        else { g.set(i, j, d.any(rng)); }
+    } }
+    if shuffle { let mut p: Vec<usize> = (0..n).collect(); p[..s].shuffle(rng); p[s..].shuffle(rng); g = g.permute_rows(&p); }
+    g
+}
+/// dense, column k an integer combination of the columns before it (k = 0: zero column)
+fn fam_depcol(rng: &mut StdRng, n: usize, d: &Draw, k: usize) -> Gm {
+    let mut g = fam_dense(rng, n, d);
+    let w: Vec<i64> = (0..k).map(|_| rng.gen_range(-1..=1)).collect();
+    for i in 0..n { let mut acc = (0, 0); for q in 0..k { let v = g.get(i, q); acc = (acc.0 + w[q] * v.0, acc.1 + w[q] * v.1); } g.set(i, k, acc); }
+    g
+}
+/// per-row / per-column binary exponents +-e, half of each sign (the product of the scale factors is 1 for even n)
+fn balanced_exps(rng: &mut StdRng, n: usize, e: i64) -> Vec<i64> { let mut v: Vec<i64> = (0..n).map(|i| if i < (n + 1) / 2 { -e } else { e }).collect(); if n % 2 == 1 { v[0] = 0; } v.shuffle(rng); v }
+fn scale_rows_cols(g: &mut Gm, r: &[i64], c: &[i64]) { let n = g.n; for i in 0..n { for j in 0..n { g.ex[i * n + j] += r[i] + c[j]; } } }
+
+/// right-hand sides with exact special values: zero vector, unit vectors, leading zeros, a column / a row of A itself
+fn special_rhs(rng: &mut StdRng, g: &Gm, cx: bool, all_units: bool) -> Vec<(String, Vec<(i64, i64)>, Vec<i64>)> {
+    let n = g.n; let ex = final_exps(g); let mut v = Vec::new();
+    v.push(("b_zero".to_string(), vec![(0, 0); n], vec![0; n]));
+    let ks: Vec<usize> = if all_units { (0..n).collect() } else { vec![rng.gen_range(0..n)] };
+    for k in ks { v.push((format!("b_e{}", k), (0..n).map(|i| if i == k { (1, 0) } else { (0, 0) }).collect(), vec![0; n])); }
+    if n >= 2 { let z = rng.gen_range(1..n); let r = b_random(rng, n, cx, 3); v.push(("b_lead0".to_string(), (0..n).map(|i| if i < z { (0, 0) } else if r[i] == (0, 0) { (1, 0) } else { r[i] }).collect(), vec![0; n])); }
+    let j = rng.gen_range(0..n); v.push(("b_col".to_string(), (0..n).map(|i| g.get(i, j)).collect(), (0..n).map(|i| ex[i * n + j]).collect()));
+    let i = rng.gen_range(0..n); v.push(("b_row".to_string(), (0..n).map(|j| g.get(i, j)).collect(), (0..n).map(|j| ex[i * n + j]).collect()));
+    v
+}
+
+/// ---- C01 hardening: special exact values (class 2) and extreme magnitudes (class 3)
+fn gen_solve_hard(tier: &str, seed: u64, sink: &mut Sink) {
+    let quick = tier == "quick";
+    let mut rng = rng(seed, 303);
+    let reps = if quick { 1 } else { 6 };
+    for _rep in 0..reps { for n in 1..=8usize { for ty in ["rat", "f64", "cx"] {
+        let cx = ty == "cx"; let rat = ty == "rat";
+        let small = Draw { cx, amax: if rat { RAT_AMAX[n].min(3) } else { 9 } };
+        // (2) exchanges at every step x special right-hand sides; exact unit pivots; exactly structured matrices
+        let mut fams: Vec<(String, Gm, i64, bool)> = Vec::new();     // (name, matrix, divisor, all unit vectors?)
+        fams.push(("cyc_upper".into(), fam_cyc_upper(&mut rng, n, &small), 1, true));
+        fams.push(("dense".into(), fam_dense(&mut rng, n, &small), 1, true));
+        if n >= 2 { let s = rng.gen_range(0..n - 1); let r0 = rng.gen_range(s + 1..n); fams.push(("zeropiv".into(), fam_zeropiv(&mut rng, n, &small, s, r0, 0, true), 1, true)); }
+        { let (g, k) = fam_unitpiv(&mut rng, n, &small, false); fams.push(("unitpiv".into(), g, k, true)); }
+        if cx { let (g, k) = fam_unitpiv(&mut rng, n, &small, true); fams.push(("unitpiv5".into(), g, k, false)); }
+        fams.push(("identity".into(), fam_identity(n), 1, false));
+        let up = rng.gen_bool(0.5); fams.push(("unit_tri".into(), fam_unit_tri(&mut rng, n, &small, up), 1, false));
+        let kind = rng.gen_range(0..3); fams.push(("elementary".into(), fam_elementary(&mut rng, n, &small, kind), 1, false));
+        let t = rng.gen_range(0..4); fams.push(("permutation".into(), fam_permlike(&mut rng, n, &Draw { cx, amax: 1 }, t, false), 1, false));
+        fams.push(("diagonal".into(), fam_diagonal(&mut rng, n, &small, 0), 1, false));
+        for (name, g, k, all) in &fams {
+            let b = b_random(&mut rng, n, cx, 3);
+            push_solve(sink, ty, name, g, &b, &vec![0; n], *k);
+            for (bn, b, be) in special_rhs(&mut rng, g, cx, *all) { push_solve(sink, ty, &format!("{}+{}", name, bn), g, &b, &be, *k); }
+        }
+        if rat { continue; }
+        // (3) extreme magnitudes: uniform scaling, balanced row / column grading (pivot products under/overflow), tiny column / row
+        // Complex<f64> multiplies and divides by the textbook formulas (|w|^2, products of two entries): its stated range is
+        // 1e+-100 ~ 2^+-332 (C13), and entries of ONE system may differ by at most ~2^400 before intermediate products leave the range
+        let scales: Vec<i64> = if cx { vec![60, 200, 332] } else { vec![60, 200, 400, 500] };
+        for s0 in scales { for sign in [-1i64, 1] {
+            let s = sign * s0;
+            let base = match rng.gen_range(0..4) { 0 => fam_dense(&mut rng, n, &small), 1 => fam_sparse(&mut rng, n, &small), 2 => fam_cyc_upper(&mut rng, n, &small),
+                _ => if n >= 2 { let st = rng.gen_range(0..n - 1); let r0 = rng.gen_range(st + 1..n); fam_zeropiv(&mut rng, n, &small, st, r0, 0, true) } else { fam_dense(&mut rng, n, &small) } };
+            let mut g = base; add_scaling(&mut rng, &mut g, 0, 0, s);
+            let b = b_random(&mut rng, n, cx, 9);
+            let mut bexps = vec![s]; if s0 <= 400 && !(cx && s0 > 200) { bexps.push(0); if !cx { bexps.push(-s); } }
+            let be = bexps[rng.gen_range(0..bexps.len())];
+            push_solve(sink, ty, &format!("uscale{}{}", if s < 0 { "m" } else { "p" }, s0), &g, &b, &vec![be; n], 1);
+        } }
+        for e in [60i64, 200, 400] {
+            if cx && e > 200 { continue; }
+            // P * diag(t, .., 1/t, ..) with small mantissas: determinant O(1), every partial pivot product under/overflows
+            { let mut g = fam_permlike(&mut rng, n, &Draw { cx, amax: 3 }, n, false); let r = balanced_exps(&mut rng, n, e); scale_rows_cols(&mut g, &r, &vec![0; n]);
+              let b = b_random(&mut rng, n, cx, 9); let rows_scaled = rng.gen_bool(0.5);
+              push_solve(sink, ty, &format!("baldiag{}", e), &g, &b, &(if rows_scaled { r.clone() } else { vec![0; n] }), 1); }
+            // D1 * B (rows) and B * D2 (columns), B well conditioned small integers; both axes only up to 2^+-200
+            { let mut g = fam_dense(&mut rng, n, &small); let r = balanced_exps(&mut rng, n, e); scale_rows_cols(&mut g, &r, &vec![0; n]);
+              let b = b_random(&mut rng, n, cx, 9); push_solve(sink, ty, &format!("balrows{}", e), &g, &b, &r, 1); }
+            { let mut g = fam_dense(&mut rng, n, &small); let c = balanced_exps(&mut rng, n, e); scale_rows_cols(&mut g, &vec![0; n], &c);
+              let b = b_random(&mut rng, n, cx, 9); push_solve(sink, ty, &format!("balcols{}", e), &g, &b, &vec![0; n], 1); }
+            if e <= 200 { let mut g = fam_dense(&mut rng, n, &small); let r = balanced_exps(&mut rng, n, e); let c = balanced_exps(&mut rng, n, e); scale_rows_cols(&mut g, &r, &c);
+              let b = b_random(&mut rng, n, cx, 9); push_solve(sink, ty, &format!("balboth{}", e), &g, &b, &r, 1); }
+            // one tiny column / one tiny row
+            { let mut g = fam_dense(&mut rng, n, &small); let mut c = vec![0; n]; c[rng.gen_range(0..n)] = -e; scale_rows_cols(&mut g, &vec![0; n], &c);
+              let b = b_random(&mut rng, n, cx, 9); push_solve(sink, ty, &format!("tinycol{}", e), &g, &b, &vec![0; n], 1); }
+            { let mut g = fam_dense(&mut rng, n, &small); let mut r = vec![0; n]; r[rng.gen_range(0..n)] = -e; scale_rows_cols(&mut g, &r, &vec![0; n]);
+              let b = b_random(&mut rng, n, cx, 9); let scaled = rng.gen_bool(0.5); push_solve(sink, ty, &format!("tinyrow{}", e), &g, &b, &(if scaled { r.clone() } else { vec![0; n] }), 1); }
+        }
+    } } }
+}
+
+/// ---- C02 hardening: special exact values (class 2) and extreme magnitudes (class 3)
+fn gen_det_hard(tier: &str, seed: u64, sink: &mut Sink) {
+    let quick = tier == "quick";
+    let mut rng = rng(seed, 404);
+    let reps = if quick { 1 } else { 6 };
+    // ||A||_F^n (the unit of the float determinant bound) and the determinant itself must stay inside the f64 range
+    let det_ok = |n: usize, e: i64| (e + 8) * (n as i64) <= 1000;
+    for _rep in 0..reps { for n in 1..=8usize { for ty in ["rat", "f64", "cx"] {
+        let cx = ty == "cx"; let rat = ty == "rat";
+        let small = Draw { cx, amax: if rat { [9, 9, 9, 9, 3, 2, 2, 1, 1][n] } else { 9 } };
+        // (2) exactly structured matrices and exact unit pivots
+        push_det(sink, ty, "cyc_upper", &fam_cyc_upper(&mut rng, n, &small), 1, true, false);
+        { let (g, k) = fam_unitpiv(&mut rng, n, &small, false); push_det(sink, ty, "unitpiv", &g, k, true, false); }
+        if cx { let (g, k) = fam_unitpiv(&mut rng, n, &small, true); push_det(sink, ty, "unitpiv5", &g, k, true, false); }
+        for up in [false, true] { push_det(sink, ty, "unit_tri", &fam_unit_tri(&mut rng, n, &small, up), 1, true, false); }
+        for kind in 0..3 { push_det(sink, ty, "elementary", &fam_elementary(&mut rng, n, &small, kind), 1, true, false); }
+        push_det(sink, ty, "diagonal", &fam_diagonal(&mut rng, n, &small, 0), 1, true, false);
+        let nz = 1 + rng.gen_range(0..2); push_det(sink, ty, "diagonal_sing", &fam_diagonal(&mut rng, n, &small, nz), 1, true, false);
+        // an all-zero pivot column at EVERY stage s (structurally, and as a dependent column of a dense matrix)
+        for s in 0..n {
+            push_det(sink, ty, "zerostage", &fam_zerostage(&mut rng, n, &small, s, true), 1, true, false);
+            push_det(sink, ty, "depcol", &fam_depcol(&mut rng, n, &Draw { cx, amax: small.amax.min(2) }, s), 1, true, false);
+        }
+        if rat { continue; }
+        // (3) extreme magnitudes
+        for s0 in [60i64, 200, if cx { 332 } else { 400 }] { for sign in [-1i64, 1] {
+            let mut g = if rng.gen_bool(0.5) { fam_dense(&mut rng, n, &small) } else { fam_cyc_upper(&mut rng, n, &small) };
+            add_scaling(&mut rng, &mut g, 0, 0, sign * s0);
+            push_det(sink, ty, &format!("uscale{}{}", if sign < 0 { "m" } else { "p" }, s0), &g, 1, det_ok(n, s0), false);
+            if det_ok(n, s0) { let mut z = fam_dense(&mut rng, n, &small); zero_col(&mut z, rng.gen_range(0..n)); add_scaling(&mut rng, &mut z, 0, 0, sign * s0);
+                push_det(sink, ty, &format!("uscale_sing{}", s0), &z, 1, true, false); }
+        } }
+        for e in [60i64, 100, 200, 400] {
+            if cx && e > 200 { continue; }     // see gen_solve_hard: dynamic range of the textbook complex division
+            { let mut g = fam_permlike(&mut rng, n, &Draw { cx, amax: 3 }, n, false); let r = balanced_exps(&mut rng, n, e); scale_rows_cols(&mut g, &r, &vec![0; n]);
+              push_det(sink, ty, &format!("baldiag{}", e), &g, 1, det_ok(n, e), true); }
+            { let mut g = fam_dense(&mut rng, n, &small); let r = balanced_exps(&mut rng, n, e); scale_rows_cols(&mut g, &r, &vec![0; n]);
+              push_det(sink, ty, &format!("balrows{}", e), &g, 1, det_ok(n, e), true); }
+            { let mut g = fam_dense(&mut rng, n, &small); let c = balanced_exps(&mut rng, n, e); scale_rows_cols(&mut g, &vec![0; n], &c);
+              push_det(sink, ty, &format!("balcols{}", e), &g, 1, det_ok(n, e), true); }
+            { let mut g = fam_dense(&mut rng, n, &small); let mut c = vec![0; n]; c[rng.gen_range(0..n)] = -e; scale_rows_cols(&mut g, &vec![0; n], &c);
+              push_det(sink, ty, &format!("tinycol{}", e), &g, 1, true, true); }
+        }
+    } } }
+}
+
+// ---- sequences on one object
+const MUTATORS: [&str; 21] = ["set", "set_row", "set_col", "swap_rows", "swap_elem", "fill", "fill_diag", "fill_band", "fill_tridiag", "fill_row", "fill_col",
+    "add_assign", "sub_assign", "mul_assign", "div_assign", "add_scalar_assign", "sub_scalar_assign", "transpose_in_place", "resize", "mul_div", "set_same"];
+/// one mutator step (integer-valued so that the exact type stays within integers); "mul_div" is `*= s` then `/= s`
+/// (two steps, the matrix returns to its old value), "set_same" writes the value an entry already has through IndexMut
+fn mutator_steps(rng: &mut StdRng, name: &str, n: usize, d: &Draw, cur: &Gm) -> Vec<Value> {
+    let cxv = |st: &mut Value, k: &str, v: (i64, i64)| { st[k] = json!(v.0); if d.cx { st[format!("{}i", k)] = json!(v.1); } };
+    let vecv = |rng: &mut StdRng, st: &mut Value, k: &str| { let v: Vec<(i64, i64)> = (0..n).map(|_| d.any(rng)).collect(); st[k] = json!(v.iter().map(|x| x.0).collect::<Vec<i64>>()); if d.cx { st[format!("{}i", k)] = json!(v.iter().map(|x| x.1).collect::<Vec<i64>>()); } };
+    let (i, j) = (rng.gen_range(0..n), rng.gen_range(0..n)); let (i2, j2) = (rng.gen_range(0..n), rng.gen_range(0..n));
+    let mut st = json!({"op": name});
+    match name {
+        "set" => { st["i"] = json!(i); st["j"] = json!(j); let mut v = d.nz(rng); if v == cur.get(i, j) { v = (v.0 + 1, v.1); } cxv(&mut st, "x", v); }
+        "set_same" => { st["op"] = json!("set"); st["i"] = json!(i); st["j"] = json!(j); cxv(&mut st, "x", cur.get(i, j)); }
+        "set_row" => { st["i"] = json!(i); vecv(rng, &mut st, "v"); }
+        "set_col" => { st["j"] = json!(j); vecv(rng, &mut st, "v"); }
+        "swap_rows" => { st["i"] = json!(i); st["i2"] = json!(if n > 1 { (i + 1 + rng.gen_range(0..n - 1)) % n } else { i }); }
+        "swap_elem" => { st["i"] = json!(i); st["j"] = json!(j); st["i2"] = json!(i2); st["j2"] = json!(j2); }
+        "fill" | "fill_diag" | "fill_row" | "fill_col" => { st["i"] = json!(i); st["j"] = json!(j); cxv(&mut st, "x", d.nz(rng)); }
+        "fill_band" => { st["off"] = json!(rng.gen_range(-1..=1)); cxv(&mut st, "x", d.nz(rng)); }
+        "fill_tridiag" => { cxv(&mut st, "lo", d.any(rng)); cxv(&mut st, "di", d.nz(rng)); cxv(&mut st, "up", d.any(rng)); }
+        "add_assign" | "sub_assign" => { let b = fam_sparse(rng, n, d); st["b"] = json!(b.re); if d.cx { st["bi"] = json!(b.im); } st["form"] = json!(if rng.gen_bool(0.5) { "own" } else { "ref" }); }
+        "mul_assign" => { st["s"] = json!([2, -1, 3, -2][rng.gen_range(0..4)]); }
+        "div_assign" => { st["s"] = json!(-1); }
+        "add_scalar_assign" | "sub_scalar_assign" => { st["s"] = json!([1, -1, 2][rng.gen_range(0..3)]); }
+        "mul_div" => { let s = [2, 3, -2][rng.gen_range(0..3)]; return vec![json!({"op": "mul_assign", "s": s}), json!({"op": "Q"}), json!({"op": "div_assign", "s": s})]; }
+        _ => {}
+    }
+    vec![st]
+}
+/// which = "c01": queries are solves on clones (two right-hand sides), primed by discarded determinant()/inverse() calls;
+/// which = "c02": queries are determinant() and inverse()
+fn gen_seq(tier: &str, seed: u64, which: &str, sink: &mut Sink) {
+    let quick = tier == "quick";
+    let mut rng = rng(seed, if which == "c01" { 505 } else { 606 });
+    let ns: Vec<usize> = if quick { vec![2, 3, 4] } else { vec![1, 2, 3, 4, 5] };
+    let reps = if quick { 1 } else { 4 };
+    for _rep in 0..reps { for &n in &ns { for ty in ["rat", "f64", "cx"] { for (mi, name) in MUTATORS.iter().enumerate() {
+        let cx = ty == "cx";
+        let d = Draw { cx, amax: [3, 3, 3, 3, 2, 1][n] };
+        let mut g = fam_dense(&mut rng, n, &d);
+        for _ in 0..50 { if g.nonsingular() { break; } g = fam_dense(&mut rng, n, &d); }
+        let query = |rng: &mut StdRng| -> Vec<Value> {
+            if which == "c01" {
+                let mk = |rng: &mut StdRng| { let b = b_random(rng, n, cx, 3); let mut s = json!({"op": "solve", "b": b.iter().map(|x| x.0).collect::<Vec<i64>>()}); if cx { s["bi"] = json!(b.iter().map(|x| x.1).collect::<Vec<i64>>()); } s };
+                vec![json!({"op": "prime"}), mk(rng), mk(rng)]
+            } else { vec![json!({"op": "det"}), json!({"op": "inverse"})] }
+        };
+        let mut steps = query(&mut rng);
+        // the mutator under test first, then two more (so that every mutator also follows a primed state of another one)
+        for q in 0..3 {
+            let name = if q == 0 { *name } else { MUTATORS[(mi + 7 * q + rng.gen_range(0..3)) % MUTATORS.len()] };
+            for st in mutator_steps(&mut rng, name, n, &d, &g) { if gets(&st, "op") == "Q" { steps.extend(query(&mut rng)); } else { steps.push(st); } }
+            steps.extend(query(&mut rng));
+        }
+        let mut c = case_json(ty, "seq", &format!("seq_{}", name), &g);
+        c["steps"] = Value::from(steps);
+        sink.push(c);
+    } } } }
 }
